@@ -53,6 +53,13 @@ class Shim:
     def empty(self, shape, dtype=float, **kw):
         return _np.zeros(shape, dtype=self._dt(dtype))
 
+    def eye(self, n, m=None, dtype=float, **kw):
+        a = _np.eye(n, m, **kw)
+        return a.astype(self._dt(dtype)) if self._dt(dtype) is object else _np.eye(n, m, dtype=dtype, **kw)
+
+    def identity(self, n, dtype=float):
+        return self.eye(n, dtype=dtype)
+
     def zeros_like(self, a, dtype=None):
         return _np.zeros(a.shape, dtype=self._dt(dtype if dtype is not None else a.dtype))
 
